@@ -60,8 +60,20 @@ package connection
 // Requests that are not bridge upgrades go to the passthrough handler untouched. A bridged connection wraps exactly the
 // upgraded websocket in a fresh WebsocketNetConn (nothing shared with other connections), dials the configured local
 // port, and copies each direction once between exactly these two ends.
-//@ func Handler$1 props(C15,C07)
+//@ func Handler$1 props(C15,C16,C07)
 //@   requires w != nil && r != nil && r.URL != nil && passthroughHandler != nil
+//@   ghost upOK bool = false
+//@   ghost dialOK bool = false
+//@   ghost be ref = nil
+//@   ghost wsClosed int = 0
+//@   ghost beClosed int = 0
+//@   call (*websocket.Conn).Close
+//@     assert[C16:only-this-connections-websocket-is-closed] arg0 == ws && upOK
+//@     do wsClosed = wsClosed + 1
+//@   call (net.Conn).Close
+//@     assert[C16:only-this-connections-backend-socket-is-closed] arg0 == be && dialOK
+//@     do beClosed = beClosed + 1
+//@   ensures[C16:both-connections-released-on-every-exit-path] (upOK ==> wsClosed >= 1) && (dialOK ==> beClosed >= 1)
 //@   ghost passed int = 0
 //@   ghost dials int = 0
 //@   ghost ups int = 0
@@ -73,22 +85,38 @@ package connection
 //@     assert[C15:upgrade-this-request-once] ups == 0 && passed == 0 && arg1 == old(w)
 //@     do ups = ups + 1
 //@     do ws = ret0
+//@     do upOK = ret1 == nil
 //@   call net.Dial
 //@     assert[C15:dial-the-configured-local-port] dials == 0 && ups == 1 && arg0 == "tcp" && arg1 == backendHost && frontendConn != nil && !allocated0(frontendConn) && frontendConn.Conn == ws && len(frontendConn.bufferedMsg) == 0
 //@     do dials = dials + 1
+//@     do be = ret0
+//@     do dialOK = ret1 == nil
 //@   go Handler$1$1
 //@     assert[C15:client-to-backend-copy-between-this-pair] dials == 1 && frontendConn.Conn == ws
 //@   go Handler$1$2
 //@     assert[C15:backend-to-client-copy-between-this-pair] dials == 1 && frontendConn.Conn == ws
-//@ func Handler$1$1 props(C15,C07)
-//@   requires frontendConn != nil
+// C16 (safety core of a liveness property): a copy direction that has ended closes the connection it was writing to, so
+// the far peer can observe end-of-stream; the other direction then fails on the closed connection and the handler's
+// deferred closes release both ends.
+//@ func Handler$1$1 props(C15,C16,C07)
+//@   requires frontendConn != nil && backendConn != nil
+//@   ghost closedDst int = 0
+//@   call (net.Conn).Close
+//@     assert[C16:backend-closed-only-after-the-client-direction-ended] copies == 1 && arg0 == backendConn
+//@     do closedDst = closedDst + 1
+//@   ensures[C16:backend-connection-closed-when-the-client-direction-ends] closedDst >= 1
 //@   ghost copies int = 0
 //@   call io.Copy
 //@     assert[C15:copy-client-bytes-to-the-backend] copies == 0 && arg0 == backendConn && arg1 == box(frontendConn)
 //@     do copies = copies + 1
 //@   ensures[C15:one-copy-loop-per-direction] copies == 1
-//@ func Handler$1$2 props(C15,C07)
-//@   requires frontendConn != nil
+//@ func Handler$1$2 props(C15,C16,C07)
+//@   requires frontendConn != nil && frontendConn.Conn != nil && backendConn != nil
+//@   ghost closedDst int = 0
+//@   call (*websocket.Conn).Close
+//@     assert[C16:client-closed-only-after-the-backend-direction-ended] copies == 1 && arg0 == frontendConn.Conn
+//@     do closedDst = closedDst + 1
+//@   ensures[C16:client-connection-closed-when-the-backend-direction-ends] closedDst >= 1
 //@   ghost copies int = 0
 //@   call io.Copy
 //@     assert[C15:copy-backend-bytes-to-the-client] copies == 0 && arg0 == box(frontendConn) && arg1 == backendConn
